@@ -123,6 +123,57 @@ def install():
     _installed = True
 
 
+_MODSTATE = None
+
+
+def _snapshot_module_state():
+    """Remember the contents of every module-level and class-level mutable container of circus.*, so that each
+    execution starts from the same library state (state hoisted to module / class scope must not travel from one
+    execution to the next: it would make verdicts depend on which executions shared a worker process)."""
+    import copy
+    snap = []
+    for name, mod in list(sys.modules.items()):
+        if not (name == 'circus' or name.startswith('circus.')) or mod is None:
+            continue
+        holders = [mod]
+        for v in list(vars(mod).values()):
+            if isinstance(v, type) and getattr(v, '__module__', None) == name:
+                holders.append(v)
+        for h in holders:
+            for attr, v in list(vars(h).items()):
+                if attr.startswith('__') or attr == 'KNOWN_COMMANDS':
+                    continue
+                if isinstance(v, (list, dict, set)) and not isinstance(v, type):
+                    try:
+                        snap.append((h, attr, v, copy.copy(v)))
+                    except Exception:
+                        pass
+    return snap
+
+
+def _restore_module_state():
+    global _MODSTATE
+    if _MODSTATE is None:
+        _MODSTATE = _snapshot_module_state()
+        return
+    seen = set()
+    for h, attr, obj, content in _MODSTATE:
+        seen.add((id(h), attr))
+        if vars(h).get(attr) is not obj:
+            try:
+                setattr(h, attr, obj)
+            except Exception:
+                pass
+        if isinstance(obj, list):
+            obj[:] = content
+        elif isinstance(obj, dict):
+            obj.clear()
+            obj.update(content)
+        elif isinstance(obj, set):
+            obj.clear()
+            obj.update(content)
+
+
 class Request(object):
     def __init__(self, world, cid, mid, command, props, cast, raw, t):
         self.world = world
@@ -214,6 +265,7 @@ class World(object):
         CLOCK.on_sleep = self._while_daemon_sleeps
         import circus.util
         circus.util._PROCS.clear()
+        _restore_module_state()
 
     # ------------------------------------------------------------------
     def _behaviour_for(self, kernel, proc):
